@@ -112,12 +112,15 @@ func dCerts(kps []keyPair) []dtlcp.Certificate {
 	return out
 }
 
-const dRetransmit = 150 * time.Millisecond
+// The in-memory datagram pipe loses nothing, so no case needs a retransmission; a long timer
+// keeps a loaded machine from making the real endpoint retransmit in the middle of a scripted
+// case (a repeated flight would enter the scripted server's transcript).
+const dRetransmit = time.Hour
 
 func (l *dLink) client(cfg clientCfg) (endpoint, func() connState) {
 	c := &dtlcp.Config{RootCAs: cfg.tweak.rootPool(), ServerName: cfg.tweak.name, Time: cfg.tweak.now,
 		InsecureSkipVerify: cfg.tweak.skip, CipherSuites: []uint16{cfg.suite}, Certificates: dCerts(cfg.certs),
-		InitialRetransmitTimeout: dRetransmit}
+		InitialRetransmitTimeout: dRetransmit, MaxRetransmitTimeout: dRetransmit}
 	if cfg.cache != nil {
 		c.SessionCache = cfg.cache.(dtlcp.SessionCache)
 	}
@@ -130,7 +133,7 @@ func (l *dLink) client(cfg clientCfg) (endpoint, func() connState) {
 
 func (l *dLink) serverConfig(cfg serverCfg) *dtlcp.Config {
 	c := &dtlcp.Config{Certificates: dCerts(cfg.certs), CipherSuites: []uint16{cfg.suite},
-		ClientCAs: pki.Std().Root.Pool, Time: pki.NowFn, InitialRetransmitTimeout: dRetransmit}
+		ClientCAs: pki.Std().Root.Pool, Time: pki.NowFn, InitialRetransmitTimeout: dRetransmit, MaxRetransmitTimeout: dRetransmit}
 	if cfg.cache != nil {
 		c.SessionCache = cfg.cache.(dtlcp.SessionCache)
 	}
